@@ -12,6 +12,7 @@ import PoetryVerif.Proofs.VRangeBump
 import PoetryVerif.Proofs.VRangePred
 import PoetryVerif.Proofs.VRangeParse
 import PoetryVerif.Model.VPrint
+import PoetryVerif.Proofs.VRangeTextU
 
 set_option linter.unusedSimpArgs false
 set_option linter.unusedVariables false
@@ -268,10 +269,121 @@ theorem range_reparse_tokens (r : VRange) (hr : r.WF) :
       simp [hiClause, hM]
   simp [VRange.allows, e1, e2, e3, e4]
 
+/-! ## text round trip (string level)
+
+The printed text is taken through the whole of `parse_constraint` — `strip`, the `||` split, the and-separator,
+`parse_single_constraint`'s regex cascade, `Version.parse`, `intersect`, `VersionUnion.of` — on strings.  The
+hypothesis on the bounds is `TextOK`: the text of the version is a digit-headed run of version characters that
+`VERSION_PATTERN` consumes entirely giving back the same fields, and it does not end in `-`. -/
+
+/-- **a single version is read back from its text, identically** -/
+theorem version_text_roundtrip (v : Version) (hv : v.wf = true) (ht : TextOK v) :
+    ∃ s, (VC.single (.ver v)).toStr = .ok s ∧ parseConstraint s = .ok (.single (.ver v)) :=
+  single_roundtrip (.ver v) hv trivial trivial (by intro e he; simp [RC.bounds_ver] at he; subst he; exact ht) trivial
+
+/-- **a single range not spelt with a wildcard (`>=V`, `>V`, `<=V`, `<V`, `>=V,<W`, …, `*`) is read back from its
+text, identically**: the and-separator splits the two clauses, each is parsed to its half-line, and the comma's
+`intersect` gives the range itself -/
+theorem range_text_roundtrip (r : VRange) (hwf : r.WF) (hne : r.NE) (htidy : r.Tidy)
+    (ht : ∀ e ∈ r.bounds, TextOK e) (hp : r.isSingleWildcardRange = false) :
+    ∃ s, (VC.single (.rng r)).toStr = .ok s ∧ parseConstraint s = .ok (.single (.rng r)) :=
+  single_roundtrip (.rng r) hwf hne htidy ht hp
+
+example : ∃ v w, Version.parse "1.2rc1" = .ok v ∧ Version.parse "2!0.post3" = .ok w ∧
+    (VC.single (.rng ⟨some v, some w, true, false⟩)).toStr = .ok ">=1.2rc1,<2!0.post3" ∧
+    parseConstraint ">=1.2rc1,<2!0.post3" = .ok (.single (.rng ⟨some v, some w, true, false⟩)) :=
+  ⟨_, _, rfl, rfl, by decide +kernel, by decide +kernel⟩
+
+/-- **a union printed as `m0 || m1 || …` is read back as an equivalent constraint** (`UnionText`: the union is
+well-formed, its members tidy, its bounds carry re-parsable texts, are mutually regular and not local builds; no
+member is spelt with a wildcard and the union is not spelt `!=…`): the `||` split gives the members' texts, each
+is parsed to the member itself, and `VersionUnion.of` rebuilds a well-formed union over the same bounds that
+admits the same versions through `allows` itself -/
+theorem union_join_text_roundtrip (rs : List RC) (h : UnionText rs) (hplain : ∀ m ∈ rs, m.plainText)
+    (hx : VC.excludedSingleVersion rs = .ok none) (hw : VC.excludedWildcard rs = none) :
+    ∃ s c', (VC.union rs).toStr = .ok s ∧ parseConstraint s = .ok c' ∧ c'.WF ∧
+      (∀ e ∈ c'.bounds, e ∈ (VC.union rs).bounds) ∧
+      ∀ p, p.wf = true → Regular (VC.union rs).bounds p → c'.allows p = (VC.union rs).allows p := by
+  obtain ⟨s, c', h1, h2, h3, h4, h5⟩ := union_join_roundtrip rs h hplain hx hw
+  refine ⟨s, c', h1, h2, h3, ?_, h5⟩
+  intro e he
+  rw [VC.bounds_eq_flatMap] at he
+  obtain ⟨x, hx', hxe⟩ := List.mem_flatMap.1 he
+  exact (h4 x hx').2.2.2 e hxe
+
+/-- **a union printed as `!=V` is read back as `<V || >V`, an equivalent constraint** -/
+theorem union_ne_text_roundtrip (rs : List RC) (h : UnionText rs) (v : Version)
+    (hx : VC.excludedSingleVersion rs = .ok (some v)) :
+    ∃ s c', (VC.union rs).toStr = .ok s ∧ parseConstraint s = .ok c' ∧
+      (∀ e ∈ c'.bounds, e ∈ (VC.union rs).bounds) ∧
+      ∀ p, p.wf = true → Regular (VC.union rs).bounds p → c'.allows p = (VC.union rs).allows p := by
+  obtain ⟨s, h1, h2, h3, h4⟩ := union_ne_roundtrip rs h v hx
+  refine ⟨s, _, h1, h2, ?_, h4⟩
+  intro e he
+  simp [VC.bounds, RC.bounds, RC.view, VRange.bounds, RC.min, RC.max] at he
+  subst he
+  exact h3
+
+/-- not spelt with a wildcard: no member prints as `==X.*` and the union does not print as `!=X.*` -/
+def PlainSpelling : VC → Prop
+  | .empty => True
+  | .single m => m.plainText
+  | .union rs => (∀ m ∈ rs, m.plainText) ∧ VC.excludedWildcard rs = none
+
+/-- **the text round trip**, string level, for every non-empty constraint that is not spelt with a wildcard:
+single versions, plain ranges, `*`, `||` joins and `!=V`.  Extra hypotheses, named: the members are tidy (`Tidy`:
+no inclusive flag on an absent bound), the bounds carry re-parsable texts (`TextOK`), and — for a union — the
+bounds are mutually regular and not local builds (`RegB`), as everywhere in C05/C12 for unions. -/
+theorem text_roundtrip_partial (c : VC) (hwf : c.WF) (hne : c.isEmpty = false)
+    (htidy : ∀ m ∈ c.flatten, m.Tidy) (htext : ∀ e ∈ c.bounds, TextOK e)
+    (hreg : ∀ rs, c = .union rs → RegB c.bounds) (hplain : PlainSpelling c) :
+    ∃ s c', c.toStr = .ok s ∧ parseConstraint s = .ok c' ∧
+      ∀ p, p.wf = true → Regular (c.bounds ++ c'.bounds) p → c'.allows p = c.allows p := by
+  cases c with
+  | empty => simp [VC.isEmpty] at hne
+  | single m =>
+    obtain ⟨s, h1, h2⟩ := single_roundtrip m hwf.1 hwf.2 (htidy m (by simp [VC.flatten])) htext hplain
+    exact ⟨s, _, h1, h2, fun _ _ _ => rfl⟩
+  | union rs =>
+    have hU : UnionText rs := ⟨hwf, fun m hm => htidy m (by simpa [VC.flatten] using hm),
+      fun m hm e he => htext e (List.mem_flatMap.2 ⟨m, hm, he⟩), hreg rs rfl⟩
+    obtain ⟨hok, hN⟩ := unionOK_of_reg hU.reg rs hU.member hwf.2.2.1
+    obtain ⟨inv, hinv⟩ := inverted_total rs hok hN
+    have hxs : ∃ o, VC.excludedSingleVersion rs = .ok o := by
+      unfold VC.excludedSingleVersion
+      simp only [hinv, bind, Except.bind, pure, Except.pure]
+      split <;> exact ⟨_, rfl⟩
+    obtain ⟨o, ho⟩ := hxs
+    cases o with
+    | none =>
+      obtain ⟨s, c', h1, h2, _, _, h5⟩ := union_join_text_roundtrip rs hU hplain.1 ho hplain.2
+      exact ⟨s, c', h1, h2, fun p hp hr => h5 p hp (hr.mono (by intro e he; simp [he]))⟩
+    | some v =>
+      obtain ⟨s, c', h1, h2, _, h4⟩ := union_ne_text_roundtrip rs hU v ho
+      exact ⟨s, c', h1, h2, fun p hp hr => h4 p hp (hr.mono (by intro e he; simp [he]))⟩
+
+/-- the unrestricted statement is false of model and code: a version text may end in a separator
+(`1.0post-` is `1.0.post0` for `VERSION_PATTERN`), and in front of the comma that `-` defeats the and-separator's
+`(?<!-)`: `parse_constraint(">=1.0post-").intersect(parse_constraint("<2"))` prints `>=1.0post-,<2`, which
+`parse_constraint` rejects -/
+theorem counterexample_text_trailing_separator :
+    let V : Version := { epoch := 0, release := [1, 0], pre := none, post := some ⟨.post, 0⟩, dev := none,
+                         loc := none, text := "1.0post-" }
+    let W : Version := { epoch := 0, release := [2], pre := none, post := none, dev := none, loc := none, text := "2" }
+    parseConstraint ">=1.0post-" = .ok (.single (.rng ⟨some V, none, true, false⟩)) ∧
+    parseConstraint "<2" = .ok (.single (.rng ⟨none, some W, false, false⟩)) ∧
+    VC.intersect (.single (.rng ⟨some V, none, true, false⟩)) (.single (.rng ⟨none, some W, false, false⟩)) =
+      .ok (.single (.rng ⟨some V, some W, true, false⟩)) ∧
+    (VC.single (.rng ⟨some V, some W, true, false⟩)).toStr = .ok ">=1.0post-,<2" ∧
+    parseConstraint ">=1.0post-,<2" = .error .value := by
+  intro V W
+  refine ⟨by decide +kernel, by decide +kernel, by decide +kernel, by decide +kernel, by decide +kernel⟩
+
 /-- The text round trip at full strength (string level, every non-empty constraint, unions and wildcard
-spellings included).  Proved above: the printer's shape for versions and ranges, the parser's action on the
-printed clauses (`range_reparse_tokens`), and the tokeniser-to-action steps `parse_*`; not proved: the
-regex tokeniser on the concrete text, the `==X.*` / `!=X.*` / `!=V` spellings and `||` joins. -/
+spellings included).  Proved at string level: single versions, plain ranges, `*`, `||` joins, `!=V`
+(`text_roundtrip_partial`, under `TextOK` / `Tidy` / `RegB` for unions).  As stated — for every well-formed `c`
+whatever the texts of its bounds — it is false (`counterexample_text_trailing_separator`: the `text` field is
+what the user wrote).  Not proved: the wildcard spellings `==X.*` / `!=X.*`. -/
 def text_roundtrip_full_statement : Prop :=
   ∀ c : VC, c.WF → c.isEmpty = false →
     ∃ s c', c.toStr = .ok s ∧ VParser.parseConstraint s = .ok c' ∧
